@@ -36,6 +36,10 @@ inductive CellOp (α : Type)
   | setPos (p : Pt α)
   | setRadius (r : α)
   | setRot (θ : α)
+  /-- `move_by_relative_coordinate(d)`: `self.pos += d` (goes through the `pos` setter) -/
+  | moveBy (d : Pt α)
+  /-- `move_by_relative_polar_coordinate(r, a)`: `self.pos += cmath.rect(r, a)` (angle in radians) -/
+  | movePolar (r a : α)
 
 section
 variable {α : Type} [Add α] [Sub α] [Mul α] [Div α] [Neg α] [NatCast α] [LT α] [DecidableLT α] [Circ α]
@@ -74,14 +78,18 @@ def freshSquare (pos : Pt α) (side θ : α) : CellState α :=
     * `Cell3Sec`: store, then re-derive the three sector cells from the *new* attributes.
     * `CellSquare` (repaired `Rectangle.pos` / `Rectangle.radius` setters): the absolute corners move
       with the centre, and are scaled about the centre by `new radius / old radius`. -/
+def stepPos (st : CellState α) (p : Pt α) : CellState α :=
+  match st.kind with
+  | .hex => { st with pos := p }
+  | .sec3 => { st with pos := p, secs := mkSectors p st.radius st.rot }
+  | .square =>
+    let d := psub p st.pos
+    { st with pos := p, lower := padd st.lower d, upper := padd st.upper d }
+
 def step (st : CellState α) : CellOp α → CellState α
-  | .setPos p =>
-    match st.kind with
-    | .hex => { st with pos := p }
-    | .sec3 => { st with pos := p, secs := mkSectors p st.radius st.rot }
-    | .square =>
-      let d := psub p st.pos
-      { st with pos := p, lower := padd st.lower d, upper := padd st.upper d }
+  | .setPos p => stepPos st p
+  | .moveBy d => stepPos st (padd st.pos d)
+  | .movePolar r a => stepPos st (padd st.pos (smul r (Circ.cisRad a)))
   | .setRadius r =>
     match st.kind with
     | .hex => { st with radius := r }
@@ -106,6 +114,8 @@ def params (p : Pt α) (R θ : α) : List (CellOp α) → Pt α × α × α
   | .setPos p' :: ops => params p' R θ ops
   | .setRadius r :: ops => params p r θ ops
   | .setRot t :: ops => params p R t ops
+  | .moveBy d :: ops => params (padd p d) R θ ops
+  | .movePolar r a :: ops => params (padd p (smul r (Circ.cisRad a))) R θ ops
 
 /-- the `CellSquare` setters before the repair: `pos` and `radius` only store the attribute and the
     corners stay where they were (kept for the negative witness) -/
@@ -113,6 +123,8 @@ def stepStale (st : CellState α) : CellOp α → CellState α
   | .setPos p => { st with pos := p }
   | .setRadius r => { st with radius := r }
   | .setRot θ => { st with rot := θ }
+  | .moveBy d => { st with pos := padd st.pos d }
+  | .movePolar _ _ => st
 
 /-! ### queries, as functions of the stored state -/
 
@@ -158,6 +170,48 @@ def stBorder (st : CellState α) (ang ratio : α) : Except PyErr (Pt α) :=
 def stRandomUser (inside : List (Pt α) → Pt α → Bool) (st : CellState α) (ratio : α) (us : List (α × α)) :
     Option (Pt α × Nat) :=
   addRandomUser (stInside inside st) st.pos st.radius ratio us
+
+/-! ### the cell object with its users; calls that may be rejected -/
+
+/-- a cell object: the stored geometric state and the positions of its users -/
+structure CellObj (α : Type) where
+  st : CellState α
+  users : List (Pt α)
+
+inductive Call (α : Type)
+  /-- a setter / `move_by_*` call -/
+  | set (op : CellOp α)
+  /-- `add_user(Node(p), relative_pos_bool=False)` -/
+  | addUser (p : Pt α)
+  /-- `add_border_user(angle, ratio)` -/
+  | borderUser (ang ratio : α)
+  | deleteUsers
+
+/-- does the call go through the `pos` setter (which also moves the users: `user.pos += diff`)? -/
+def CellOp.isMove : CellOp α → Bool
+  | .setPos _ | .moveBy _ | .movePolar _ _ => true
+  | _ => false
+
+/-- one call on the object; a rejected call returns the Python exception and no new object -/
+def callStep (inside : List (Pt α) → Pt α → Bool) (eps : α) (o : CellObj α) : Call α → Except PyErr (CellObj α)
+  | .set op =>
+    let st' := step o.st op
+    .ok { st := st', users := if op.isMove then o.users.map (fun u => padd u (psub st'.pos o.st.pos)) else o.users }
+  | .addUser p =>
+    if stInside inside o.st p then .ok { o with users := o.users ++ [p] } else .error .ValueError
+  | .borderUser ang ratio =>
+    match borderUser o.st.pos (stVerts o.st) (Circ.cisDeg ang) ratio eps with
+    | .ok p => .ok { o with users := o.users ++ [p] }
+    | .error e => .error e
+  | .deleteUsers => .ok { o with users := [] }
+
+/-- a history of calls: a rejected call raises in the caller and the object stays as it was -/
+def callRun (inside : List (Pt α) → Pt α → Bool) (eps : α) (o : CellObj α) : List (Call α) → CellObj α
+  | [] => o
+  | c :: cs =>
+    match callStep inside eps o c with
+    | .ok o' => callRun inside eps o' cs
+    | .error _ => callRun inside eps o cs
 
 /-- `Cell3Sec.add_random_user_in_sector(k+1, min_dist_ratio)`: the sector cell places the user -/
 def stRandomUserInSector (inside : List (Pt α) → Pt α → Bool) (st : CellState α) (k : Nat) (ratio : α)
